@@ -19,6 +19,8 @@ def main(tier, seed):
     # the real kernels of two problems interleaved in one namespace (module-level state would show here)
     for pat in (("ff", "ff"), ("ff", "fi")):
         jobs.append(("harness.orch_rel:c14_kernels", dict(n=2, pattern=pat)))
+    # finite-difference gradient modes go through other code of the wrapper (its option dictionaries)
+    jobs.append((T, dict(K=1, ls_mode="unit", mode="repeat", jac="2-point")))
     for ipr in (0, 1, 99, 101):
         jobs.append((T, dict(K=2, ls_mode="unit", mode="logging", iprint=ipr)))
     if tier != "quick":
